@@ -5,6 +5,10 @@ import os, subprocess, json, tempfile, shutil, sys
 M = []
 def mut(name, props, expect, edits, note=""):
     M.append((name, props, expect, edits, note))
+R = []
+def revert(name, props, expect, commit, note=""):
+    # canary: the reverse of a fix commit of /repo (the defect it repaired must be reported again)
+    R.append((name, props, expect, commit, note))
 
 # ---- C18
 mut("arith_mod_zero_late", ["C18"], "arithmetic.execute/safety/div-by-zero",
@@ -156,6 +160,15 @@ mut("generator_zero_check_skips_second_operand", ["C20"], "bnd/c20",
     [("util.go", "\t\t\tfor _, res := range childRes[1:] {\n\t\t\t\tif res == int64(0) {", "\t\t\tfor _, res := range childRes[2:] {\n\t\t\t\tif res == int64(0) {")], "a zero second operand no longer excludes / and %")
 mut("event_scidx_points_to_event_node", ["C12"], "bnd/",
     [("compiler.go", "\t\tif n.scIdx != -1 {\n\t\t\tn.scIdx = realIdxes[n.scIdx]\n\t\t}", "\t\tif n.scIdx != -1 {\n\t\t\tn.scIdx = eventNodeIdxes[n.scIdx]\n\t\t}")], "with events on, short-circuit jumps land on the event node in front of the target")
+# ---- canaries: the fixed findings must be reported again when their fix is reverted
+revert("canary_F5_event_doubling", ["C09"], "bnd/boundary-compile", "4508160")
+revert("canary_F6_event_params_alias", ["C12"], "calAndSetEventNode.wrapOpEvent.$1/post/", "5a3fd95")
+revert("canary_F7_dump_quotes", ["C13"], "", "790e840")
+revert("canary_F8_overlap_empty_left", ["C17"], "listOverlap/post/emptylist-int", "8e15953")
+revert("canary_F9_tryeval_if_operand", ["C04"], "bnd/try=eval", "92e24e6")
+revert("canary_F10_prefix_bang", ["C15"], "bnd/c15/infix=prefix", "fdaf73b")
+revert("canary_F11_formatter_literals", ["C14"], "bnd/c14/formatter-keeps-tokens", "cf66b3b")
+revert("canary_F7b_dump_multiline", ["C13"], "bnd/redump", "511d1d0")
 
 def main():
     out = os.path.join(os.path.dirname(os.path.abspath(__file__)), "mutants")
@@ -182,7 +195,14 @@ def main():
             json.dump({"name": name, "properties": props, "expect_obligation": expect, "note": note}, open(os.path.join(out, name + ".json"), "w"), indent=1)
         finally:
             shutil.rmtree(a); shutil.rmtree(b)
-    print("%d mutants written, %d bad" % (len(M), bad))
+    for name, props, expect, commit, note in R:
+        r = subprocess.run(["git", "-C", "/repo", "show", "-R", "--format=", commit, "--", "*.go", ":!verif_contracts.go", ":!*_test.go"], capture_output=True, text=True)
+        chk = subprocess.run(["git", "-C", "/repo", "apply", "--check", "-"], input=r.stdout, capture_output=True, text=True)
+        if r.returncode != 0 or not r.stdout.strip() or chk.returncode != 0:
+            print("CANARY %s: reverse of %s does not apply: %s" % (name, commit, chk.stderr.strip()[:200])); bad += 1; continue
+        open(os.path.join(out, name + ".patch"), "w").write(r.stdout)
+        json.dump({"name": name, "properties": props, "expect_obligation": expect, "note": note or ("reverse of fix commit " + commit)}, open(os.path.join(out, name + ".json"), "w"), indent=1)
+    print("%d mutants written, %d bad" % (len(M) + len(R), bad))
     sys.exit(1 if bad else 0)
 if __name__ == "__main__":
     main()
